@@ -178,16 +178,16 @@ def _final(w, pool, cb):
 def families(tier):
     thorough = tier == "thorough"
     P = ["size", "cb", "n1", "x2", "a2", "x3", "a3", "x4", "a4", "t"]
-    base = ["size >= 0", "0 <= cb <= 4", "1 <= n1 <= 3", "0 <= x2 < %d" % NOP, "a2 >= -1", "t >= 0"]
+    base = ["size >= 0", "0 <= cb <= 5", "1 <= n1 <= 3", "0 <= x2 < %d" % NOP, "a2 >= -1", "t >= 0"]
     if not thorough:
         pre = base + ["0 <= x3 < %d" % NOP, "a3 >= -1", "x4 == %d" % NOP, "a4 == 0"]
         parts = parts_product(cb=range(4), n1=(2,), x2=range(NOP), x3=(1, 3, 6, 7)) + \
-            parts_product(cb=(4,), n1=(2,), x2=(1, 3, 6), x3=(1, 3))
+            parts_product(cb=(4, 5), n1=(2,), x2=(1, 3, 6), x3=(1, 3))
         heavy = [p for p in parts if "x2 == 0" in p]
         parts = [p for p in parts if p not in heavy] + [p + [q] for p in heavy for q in ("a2 <= 0", "a2 == 1", "a2 >= 2")]
     else:
         pre = base + ["0 <= x3 <= %d" % NOP, "a3 >= -1", "x4 == %d" % NOP, "a4 == 0"]
-        parts = refine(parts_product(cb=range(5), n1=(2, 3), x2=range(NOP)), ["x2 == 0"], "x3", range(NOP + 1))
+        parts = refine(parts_product(cb=range(6), n1=(2, 3), x2=range(NOP)), ["x2 == 0"], "x3", range(NOP + 1))
     fams = [Family(name="life", fn="tpl_life", params=P, pre=pre, parts=parts,
                    twin_pre=["cb == 1", "n1 == 2", "x2 == 3", "x3 == 1", "x4 == %d" % NOP],
                    twin_args=[2, 1, 2, 3, 0, 1, 1, NOP, 0, 5])]
